@@ -1324,6 +1324,16 @@ func TestC10(t *testing.T) {
 	s = c10start(t, f, tr, cfg)
 	s.limit("b1", 1, sdk.NewInt(2000000))
 	s.tick(2100 * time.Second)
+	// ---- note for C01 (D13, no C10 monitor): a V2 close lowers TokenMintedAmount by principal + closing fee (+ interest)
+	cfg = base
+	cfg.pair = 1 // COLB (10^8 decimals, 30000 USD) / DEBTS, closing fee 0.5 %
+	cfg.kind = "vault"
+	cfg.amountIn, cfg.amountOut, cfg.dropTo = sdk.NewInt(10000), sdk.NewInt(1000000), 14000000000
+	s = c10start(t, f, tr, cfg)
+	s.bid("b1", sdk.NewInt(2000000))
+	if m, found := f.app.VaultKeeper.GetAppExtendedPairVaultMappingData(s.ctx, f.appID, s.p.extID); found && m.TokenMintedAmount.IsNegative() {
+		tr.Count("note:D13-minted-total-negative-after-close")
+	}
 	// ---- corpus 3: plain scripted closes of each kind
 	s = c10start(t, f, tr, base)
 	s.bid("b1", sdk.NewInt(100000))
